@@ -252,7 +252,13 @@ func c17Rev(fl string, t int, file string) int {
 
 func c17Setup() error {
 	c17Fix.once.Do(func() {
-		root, err := os.MkdirTemp("", "c17-root-")
+		// modeenv writes are fsynced (the driver's binary is not recognised as
+		// a test binary, so SNAPD_UNSAFE_IO does not apply); durability is
+		// simulated here, not exercised, so prefer a memory filesystem
+		root, err := os.MkdirTemp("/dev/shm", "verif-c17-root-")
+		if err != nil {
+			root, err = os.MkdirTemp("", "verif-c17-root-")
+		}
 		if err != nil {
 			c17Fix.err = err
 			return
@@ -487,6 +493,10 @@ type c17TM struct {
 	Trial    []int // revisions that may be on trial (1 element unless a set was interrupted)
 	Must     bool  // crash-free history: the single trial revision has to be attempted by the next boot
 	PrevGood int   // known-good revision when the pending/last update was started (undo target)
+	// Cancelled: revisions whose pending trial was called off by a completed
+	// set-back-to-good / undo and not set again since (only used to give
+	// the violation a narrow name)
+	Cancelled []int
 }
 
 type c17Model struct {
@@ -499,6 +509,7 @@ func (m c17Model) clone() c17Model {
 	for t := 0; t < 2; t++ {
 		c.T[t].Good = append([]int(nil), m.T[t].Good...)
 		c.T[t].Trial = append([]int(nil), m.T[t].Trial...)
+		c.T[t].Cancelled = append([]int(nil), m.T[t].Cancelled...)
 	}
 	return c
 }
@@ -560,20 +571,20 @@ type c17Run struct {
 type c17Snap struct {
 	w         c17WorldSnap
 	m         c17Model
-	ntrace    int
+	trace     []string
 	stopped   bool
 	st        c17Stats
 	lastCrash string
 }
 
 func (r *c17Run) snapshot() c17Snap {
-	return c17Snap{w: r.w.snapshot(), m: r.m.clone(), ntrace: len(r.trace), stopped: r.stopped, st: r.st, lastCrash: r.lastCrash}
+	return c17Snap{w: r.w.snapshot(), m: r.m.clone(), trace: append([]string(nil), r.trace...), stopped: r.stopped, st: r.st, lastCrash: r.lastCrash}
 }
 
 func (r *c17Run) restore(s c17Snap) {
 	r.w.restore(s.w)
 	r.m = s.m.clone()
-	r.trace = r.trace[:s.ntrace]
+	r.trace = append([]string(nil), s.trace...)
 	r.stopped = s.stopped
 	r.st = s.st
 	r.lastCrash = s.lastCrash
@@ -688,6 +699,10 @@ func (r *c17Run) setOp(op c17Op, crashAt int, undo bool) (int, error) {
 	complete := !crashed && err == nil
 	if undo {
 		if complete {
+			for _, x := range tm.Trial {
+				tm.Cancelled = c17Add(tm.Cancelled, x)
+			}
+			tm.Cancelled = c17Del(tm.Cancelled, rev)
 			tm.Good = []int{rev}
 			tm.Trial = nil
 			tm.Must = false
@@ -703,6 +718,9 @@ func (r *c17Run) setOp(op c17Op, crashAt int, undo bool) (int, error) {
 	if rev == G {
 		// going (back) to the good revision cancels a pending trial
 		if complete {
+			for _, x := range tm.Trial {
+				tm.Cancelled = c17Add(tm.Cancelled, x)
+			}
 			tm.Trial = nil
 			tm.Must = false
 		}
@@ -711,6 +729,7 @@ func (r *c17Run) setOp(op c17Op, crashAt int, undo bool) (int, error) {
 		}
 		return n, nil
 	}
+	tm.Cancelled = c17Del(tm.Cancelled, rev)
 	tm.PrevGood = G
 	if complete {
 		tm.Trial = []int{rev}
@@ -856,7 +875,7 @@ func (r *c17Run) judgeAttempt(first bool, a *c17Attempt) (trial [2]bool, err err
 		return trial, r.violf("boot-stops", "the boot stops: %s", a.why)
 	}
 	allowed := func(tm *c17TM, rev int) bool { return c17Has(tm.Good, rev) || c17Has(tm.Trial, rev) }
-	if a.image != 0 && !allowed(km, a.image) {
+	if fl != c17UC16 && a.image != 0 && !allowed(km, a.image) {
 		return trial, r.violf("boots-other", "firmware starts kernel revision %d which is neither known-good %v nor on trial %v", a.image, km.Good, km.Trial)
 	}
 	if a.outcome != 0 {
@@ -885,6 +904,9 @@ func (r *c17Run) judgeAttempt(first bool, a *c17Attempt) (trial [2]bool, err err
 	for t := 0; t < 2; t++ {
 		tm := &r.m.T[t]
 		s := a.sel[t]
+		if !allowed(tm, s) && c17Has(tm.Cancelled, s) {
+			return trial, r.violf("boots-cancelled", "boot selects %s revision %d whose trial had been called off (known-good %v, on trial %v)", c17TypName[t], s, tm.Good, tm.Trial)
+		}
 		if !allowed(tm, s) {
 			return trial, r.violf("boots-other", "boot selects %s revision %d which is neither known-good %v nor on trial %v", c17TypName[t], s, tm.Good, tm.Trial)
 		}
@@ -990,6 +1012,7 @@ func (r *c17Run) bootOp(op c17Op, crashAt int) (int, error) {
 					r.m.T[t].Good = []int{a.sel[t]}
 				}
 				r.m.T[t].Trial = nil
+				r.m.T[t].Cancelled = nil
 				r.m.T[t].Must = false
 			}
 			r.logf("  marked successful -> %s", w.describe())
@@ -1095,6 +1118,13 @@ func c17Fingerprint(fl string, r *c17Run, v *c17Viol) string {
 	if fl != c17UC16 && v.kind == "boot-stops" && strings.HasPrefix(r.lastCrash, "undo-kernel@") &&
 		strings.Contains(v.msg, "is not trusted in the modeenv") {
 		return "F-C17-1"
+	}
+	// F-C17-2: UC16/18: SetNextBoot back to the good revision returns early
+	// ("already clean") when snap_mode was already reset through the other
+	// snap type, leaving snap_try_<type> behind; a later try of the other type
+	// sets snap_mode=try and the bootloader boots the called-off revision.
+	if fl == c17UC16 && v.kind == "boots-cancelled" {
+		return "F-C17-2"
 	}
 	return ""
 }
@@ -1255,24 +1285,24 @@ func c17RunCase(c c17Case) (o verifkit.Outcome, err error) {
 func c17Gen(fl string) func(t *rapid.T) c17Case {
 	maxOps := verifkit.Size(7, 10)
 	return func(t *rapid.T) c17Case {
-		n := rapid.IntRange(2, maxOps).Draw(t, "n")
+		n := rapid.IntRange(3, maxOps).Draw(t, "n")
 		c := c17Case{Flavour: fl}
 		for i := 0; i < n; i++ {
 			var op c17Op
 			k := rapid.IntRange(0, 99).Draw(t, "kind")
 			switch {
-			case k < 40:
+			case k < 36:
 				op.Kind = "set"
 				op.Typ = rapid.IntRange(0, 1).Draw(t, "typ")
 				op.Rev = rapid.IntRange(1, c17MaxRev).Draw(t, "rev")
-			case k < 55:
+			case k < 52:
 				op.Kind = "undo"
 				op.Typ = rapid.IntRange(0, 1).Draw(t, "typ")
 			default:
 				op.Kind = "boot"
 				op.PowerLoss = rapid.IntRange(0, 4).Draw(t, "powerloss") == 0
-				op.FailK = rapid.IntRange(0, 2).Draw(t, "failk") == 0
-				op.FailB = rapid.IntRange(0, 2).Draw(t, "failb") == 0
+				op.FailK = rapid.IntRange(0, 4).Draw(t, "failk") < 3
+				op.FailB = rapid.IntRange(0, 4).Draw(t, "failb") < 3
 			}
 			if rapid.IntRange(0, 5).Draw(t, "crash?") == 0 {
 				op.Crash = rapid.IntRange(1, 8).Draw(t, "crash")
@@ -1292,6 +1322,7 @@ func c17Engine(t *testing.T, fl string) {
 	if err := c17Setup(); err != nil {
 		t.Fatalf("HARNESS: %v", err)
 	}
+	defer os.RemoveAll(c17Fix.root)
 	verifkit.Check(t, verifkit.Spec[c17Case]{
 		ID: "C17", Engine: fl,
 		Gen: c17Gen(fl),
